@@ -39,12 +39,16 @@ def check(ctx):
            "the pair is indexed by the boolean use_numba(column): element 0 is the Python, element 1 the Numba implementation" if ok else
            "select no longer indexes the pair with use_numba(data[name])", clause="USE_NUMBA switched on as with it switched off")
     un = repo.fn(f"{A.AGG}.use_numba")
-    kinds = sorted({norm(c.args[1]) for _, c in calls_in(un) if norm(c.func) == "np.issubdtype" and len(c.args) == 2})
-    want = sorted(["np.bool_", "np.datetime64", "np.floating", "np.integer"])
-    ok = kinds == want and "dataiter.USE_NUMBA and" in " ".join(norm(r.value) for r in body_nodes(un.node) if isinstance(r, ast.Return))
-    ctx.ob("SIB-8", un, f"eligible dtypes {kinds}", un.node, ok,
-           "Numba is used exactly for boolean, integer, float, date/datetime columns, and only when USE_NUMBA is on" if ok else
-           f"eligible dtype list {kinds} differs from the statement's {want} (or the switch is not consulted)",
+    kinds = sorted(_admitted_kinds(repo, un))
+    want = {"boolean", "integer", "float", "datetime"}
+    rets_un = [r.value for r in body_nodes(un.node) if isinstance(r, ast.Return) and r.value is not None]
+    switch = bool(rets_un) and all(isinstance(v, ast.BoolOp) and isinstance(v.op, ast.And)
+                                   and any(norm(x) == "dataiter.USE_NUMBA" for x in v.values) for v in rets_un)
+    ok = want <= set(kinds) <= want | {"timedelta"} and switch
+    ctx.ob("SIB-8", un, f"element kinds sent to Numba {kinds}", un.node, ok,
+           "Numba is used for boolean, integer, float, date/datetime (and, being integers to NumPy, timedelta) columns, and only when "
+           "USE_NUMBA is on" if ok else
+           f"the element kinds sent to Numba {kinds} differ from the statement's {sorted(want)} (or the switch is not consulted)",
            clause="every column type eligible for Numba acceleration")
     # pairs
     n_pairs = 0
@@ -194,8 +198,10 @@ def check(ctx):
     from ..pattern import pmatch as _pm
     tests = [n.test for n in ast.walk(nk.node) if isinstance(n, ast.If)] + [n.test for n in ast.walk(nk.node) if isinstance(n, ast.IfExp)]
     idx = nk.params[2] if len(nk.params) > 2 else "index"
+    from ..forms import expand as _expand08
+    tests_x = [_expand08(nk, t, t) for t in tests]
     okb = any(_pm(f"0 <= {idx} < len(_G) or -len(_G) <= {idx} < 0", t) is not None or _pm(f"-len(_G) <= {idx} < len(_G)", t) is not None
-              or _pm(f"-len(_G) <= {idx} < 0 or 0 <= {idx} < len(_G)", t) is not None for t in tests)
+              or _pm(f"-len(_G) <= {idx} < 0 or 0 <= {idx} < len(_G)", t) is not None for t in tests_x)
     ctx.ob("SIB-8", nk, f"index validity test {[norm(t) for t in tests]}", tests[0] if tests else nk.node, okb,
            "the Numba kernel accepts exactly the indices Python indexing accepts (-len <= index < len), like the try/except IndexError of the Python kernel" if okb else
            "the Numba kernel's bounds test is not -len(group) <= index < len(group): for some index (e.g. index == -len) it yields the "
@@ -298,10 +304,18 @@ def check(ctx):
     # ---------------------------------------------------------------- SIB-9
     ov = repo.fn(f"{A.AGG}.is_na_item_numba_overload")
     table = {}
-    for s in ov.node.body:
-        if isinstance(s, ast.If) and isinstance(s.test, ast.Call) and norm(s.test.func) == "isinstance":
+    chain_ifs = []
+
+    def _chain(stmts):
+        for s_ in stmts:
+            if isinstance(s_, ast.If):
+                chain_ifs.append(s_)
+                _chain(s_.orelse)
+    _chain(ov.node.body)
+    for s in chain_ifs:
+        if isinstance(s.test, ast.Call) and norm(s.test.func) == "isinstance":
             tys = s.test.args[1].elts if isinstance(s.test.args[1], ast.Tuple) else [s.test.args[1]]
-            r = [n for n in ast.walk(s) if isinstance(n, ast.Lambda)]
+            r = [n for b_ in s.body for n in ast.walk(b_) if isinstance(n, ast.Lambda)]
             body = None
             if r:
                 import re as _re2
@@ -315,29 +329,22 @@ def check(ctx):
            "float -> isnan, datetime -> isnat, like Vector.is_na" if ok else
            "the Numba-side NA test lacks (or mis-wires) the Float/NPDatetime branch: drop_na behaves differently with Numba on",
            clause="the same missing-value positions")
+    # the fallback: the lambda of the last return (direct form) or of the final else of the chain (assignment form)
     fall = [n for n in ov.node.body if isinstance(n, ast.Return)]
-    ok = bool(fall) and isinstance(fall[-1].value, ast.Lambda) and norm(fall[-1].value.body) == "False"
-    ctx.ob("SIB-9", ov, "other types have no missing value", fall[-1] if fall else ov.node, ok,
+    fb_lambda = fall[-1].value if fall and isinstance(fall[-1].value, ast.Lambda) else None
+    if fb_lambda is None and chain_ifs and chain_ifs[-1].orelse:
+        lams = [n for b_ in chain_ifs[-1].orelse for n in ast.walk(b_) if isinstance(n, ast.Lambda)]
+        fb_lambda = lams[0] if lams else None
+    ok = fb_lambda is not None and norm(fb_lambda.body) == "False"
+    ctx.ob("SIB-9", ov, "other types have no missing value", fb_lambda if fb_lambda is not None else ov.node, ok,
            "bool/int are never missing" if ok else "fallback NA test is not constant False", nontrivial=False)
     # every element type that use_numba() admits has, on the Numba side, the NA test Vector.is_na applies to it
-    HIER = {   # NumPy scalar hierarchy (library fact): abstract classes each concrete kind is a sub-dtype of
-        "boolean": {"np.bool_"}, "integer": {"np.integer", "np.signedinteger", "np.unsignedinteger", "np.number"},
-        "float": {"np.floating", "np.inexact", "np.number"}, "complex": {"np.complexfloating", "np.inexact", "np.number"},
-        "datetime": {"np.datetime64"},
-        "timedelta": {"np.timedelta64", "np.signedinteger", "np.integer", "np.number"},   # timedelta64 IS a signedinteger
-        "string": {"np.str_", "np.character", "np.flexible"}, "bytes": {"np.bytes_", "np.character", "np.flexible"},
-        "object": {"np.object_"}}
     NUMBA_TYPE = {"float": "types.Float", "datetime": "types.NPDatetime", "timedelta": "types.NPTimedelta",
                   "string": "types.UnicodeType", "integer": "types.Integer", "boolean": "types.Boolean", "complex": "types.Complex"}
     EXPECT = {"float": "np.isnan(x)", "datetime": "np.isnat(x)", "timedelta": "np.isnat(x)"}
     un = repo.fn(f"{A.AGG}.use_numba")
-    admitted_by = {}
-    for c in [c for _, c in calls_in(un) if repo.dotted(un, c.func) == "numpy.issubdtype" and len(c.args) == 2]:
-        t = norm(c.args[1])
-        for kind, supers in HIER.items():
-            if t in supers:
-                admitted_by.setdefault(kind, []).append(t)
-    fallback = norm(fall[-1].value.body) if fall and isinstance(fall[-1].value, ast.Lambda) else None
+    admitted_by = _admitted_kinds(repo, un)
+    fallback = norm(fb_lambda.body) if fb_lambda is not None else None
     ctx.trust("NumPy scalar hierarchy table in sa/props/C08.py (np.timedelta64 is a sub-dtype of np.integer)")
     for kind in sorted(admitted_by):
         got = table.get(NUMBA_TYPE.get(kind, "?"), fallback)
@@ -376,3 +383,34 @@ def _twin(ctx, pf, nf, pr, nr):
            "both compute the same statistic with the same extra arguments" if same else
            "the Numba kernel computes another statistic / passes other arguments than the Python kernel",
            clause="the same values")
+
+
+HIER = {   # NumPy scalar hierarchy (library fact): abstract classes each concrete kind is a sub-dtype of
+    "boolean": {"np.bool_"}, "integer": {"np.integer", "np.signedinteger", "np.unsignedinteger", "np.number"},
+    "float": {"np.floating", "np.inexact", "np.number"}, "complex": {"np.complexfloating", "np.inexact", "np.number"},
+    "datetime": {"np.datetime64"},
+    "timedelta": {"np.timedelta64", "np.signedinteger", "np.integer", "np.number"},   # timedelta64 IS a signedinteger
+    "string": {"np.str_", "np.character", "np.flexible"}, "bytes": {"np.bytes_", "np.character", "np.flexible"},
+    "object": {"np.object_"}}
+KIND_CODES = {"b": "boolean", "i": "integer", "u": "integer", "f": "float", "c": "complex", "M": "datetime", "m": "timedelta",
+              "U": "string", "T": "string", "S": "bytes", "O": "object"}
+
+
+def _admitted_kinds(repo, un):
+    """element kind -> how use_numba() admits it: np.issubdtype(x.dtype, T) disjuncts evaluated through the scalar
+    hierarchy, or x.dtype.kind in (...) codes."""
+    out = {}
+    for c in [c for _, c in calls_in(un) if repo.dotted(un, c.func) == "numpy.issubdtype" and len(c.args) == 2]:
+        t = norm(c.args[1])
+        for kind, supers in HIER.items():
+            if t in supers:
+                out.setdefault(kind, []).append(t)
+    for n in body_nodes(un.node):
+        if isinstance(n, ast.Compare) and len(n.ops) == 1 and isinstance(n.ops[0], ast.In) and norm(n.left).endswith(".dtype.kind") \
+                and isinstance(n.comparators[0], (ast.Tuple, ast.List, ast.Set, ast.Constant)):
+            cmpv = n.comparators[0]
+            codes = [e.value for e in cmpv.elts if isinstance(e, ast.Constant)] if not isinstance(cmpv, ast.Constant) else list(str(cmpv.value))
+            for cd in codes:
+                if cd in KIND_CODES:
+                    out.setdefault(KIND_CODES[cd], []).append(f"dtype.kind == {cd!r}")
+    return out
